@@ -222,6 +222,19 @@ def c05_run(item: dict) -> dict:
             viol("lookup-order", f"raised:{o['raised']}", {"world": sw, "observed": {k: o[k] for k in ('raised', 'msg', 'where')}})
         elif ops_view(o["ok"]) != ops_view(exp["ok"]):
             viol("lookup-order", "ops-differ", {"world": sw, "expected_variants": sw["variants"]})
+    # (c') the compiled file re-defines a macro name that an imported file also defines: its own definition is the one
+    #      that every call in the compiled file means - also calls from its other macros, whatever the definition order
+    ov = override_world(lib, seeds.stream(run_seed, "override"))
+    if ov is not None:
+        exp = compile_once(_single_vfs(ov["expected_src"]), "/proj/SCRIPT/main.exps", [])
+        o = compile_once(ov["vfs"], "/proj/SCRIPT/main.exps", [])
+        res["configs"] += 2
+        res["kinds"]["own-definition-overrides-import"] = res["kinds"].get("own-definition-overrides-import", 0) + 1
+        if "ok" in exp:
+            if "raised" in o:
+                viol("own-definition-overrides-import", f"raised:{o['raised']}", {"world": ov, "observed": {k: o[k] for k in ('raised', 'msg', 'where')}})
+            elif ops_view(o["ok"]) != ops_view(exp["ok"]):
+                viol("own-definition-overrides-import", "ops-differ", {"world": ov})
     # (d) worlds edited between compiles on ONE reused compiler: nothing survives from the previous world
     if worlds:
         erng = seeds.stream(run_seed, "edit")
@@ -245,6 +258,24 @@ def c05_run(item: dict) -> dict:
     return res
 
 
+def override_world(lib: macrolib.Lib, rng: random.Random) -> dict | None:
+    """main holds the whole library; an imported file defines OTHER bodies (tags 'imp') for some of the same names.
+    Expected: exactly what main alone (without the import) compiles to."""
+    names = list(lib.macros)
+    if len(names) < 2:
+        return None
+    clash = rng.sample(names, rng.randint(1, max(1, len(names) // 2)))
+    order = names[:]
+    rng.shuffle(order)
+    v = Vfs("/proj")
+    # the imported definitions are self-contained (no calls): only their names clash
+    imp = "\n\n".join(f"macro {nm}({', '.join(lib.macros[nm].params)}) {{\n    t_{nm}_imp_0();\n}}" for nm in clash) + "\n"
+    v.write("/proj/SCRIPT/lib/clash.exps", imp)
+    own = macrolib.single_file_source(lib, order)
+    v.write("/proj/SCRIPT/main.exps", 'import "./lib/clash.exps";\n\n' + own)
+    return {"vfs": v.dump(), "clash": clash, "order": order, "expected_src": own}
+
+
 def shadow_world(lib: macrolib.Lib, rng: random.Random, order: list[int]) -> dict:
     """The same relative name `pack/util.exps` under two lookup paths with different bodies (tags a / b)."""
     L = ["/proj/macros", "/opt/shared"]
@@ -255,7 +286,9 @@ def shadow_world(lib: macrolib.Lib, rng: random.Random, order: list[int]) -> dic
     for i, d in enumerate(L):
         v.write(posixpath.join(d, "pack/util.exps"), macrolib.render_file(lib, lib.order, [], {nm: "ab"[i] for nm in names}, False))
     v.write("/proj/unlisted/pack/util.exps", macrolib.render_file(lib, lib.order, [], {nm: "decoy" for nm in names}, False))
-    main_txt = 'import "pack/util.exps";\n\n' + lib.main_body() + "\n"
+    # an earlier import that exists only under the LAST lookup path must not influence where the next one is looked for
+    v.write(posixpath.join(L[order[-1]], "only_here.exps"), "macro only_here() {\n    only_here_op();\n}\n")
+    main_txt = 'import "only_here.exps";\nimport "pack/util.exps";\n\n' + lib.main_body() + "\n"
     v.write("/proj/SCRIPT/main.exps", main_txt)
     return {"vfs": v.dump(), "main": "/proj/SCRIPT/main.exps", "lookup": lookup, "variants": {nm: first_variant for nm in names}}
 
@@ -563,6 +596,9 @@ def c10_worlds(rng: random.Random) -> list[dict]:
     for nm, body in INVALID_BODIES.items():
         extra = TWO_ARGS if nm == "too_few_macro_arguments" else ""
         W(f"{nm}@main_routine", {M: extra + _wrap(body, "routine")})
+        W(f"{nm}@routine_for_named_actor", {M: extra + _wrap(body, "routine").replace("def 0 {", "def 0 for actor ACTOR_NPC {")})
+        W(f"{nm}@routine_for_object_id", {M: extra + "def 0 {\n    first();\n    end;\n}\n" + _wrap(body, "routine").replace("def 0 {", "def 1 for object (3) {")})
+        W(f"{nm}@coroutine", {M: extra + _wrap(body, "routine").replace("def 0 {", "coro CORO_BAD {")})
         W(f"{nm}@macro_of_main", {M: extra + _wrap(body, "macro") + "def 0 {\n    ~bad();\n    end;\n}\n"})
         W(f"{nm}@uncalled_macro_of_main", {M: extra + _wrap(body, "macro") + VALID_MAIN})
         W(f"{nm}@macro_file_depth_1", {M: 'import "./d1.exps";\ndef 0 {\n    ~bad();\n    end;\n}\n',
